@@ -7,11 +7,13 @@ Widths == 1 .. W
 \* boundary constants for a width (used when the full range is too large)
 Bnd(w) == {c \in {0, 1, 2^(w - 1) - 1, 2^(w - 1), 2^w - 2, 2^w - 1} : c >= 0 /\ c < 2^w}
 ConstsLt(w) == IF K <= 2 THEN 0 .. 2^w - 1 ELSE Bnd(w)
-CanonConsts(w) == {c \in ConstsLt(w) : c < P}
+\* constants are integers that fit the width; at full width that includes the non-field values P .. 2^W - 1
+CanonConsts(w) == ConstsLt(w)
+EnfConsts(w) == {c \in ConstsLt(w) : c + 1 < 2^W}      \* the bound c + 1 must itself be representable
 MCLtInputs ==
   IF Mode = "lt" THEN
        UNION {{[g |-> "lt", w |-> w, c |-> c, x |-> x] : c \in CanonConsts(w), x \in El} : w \in Widths}
-       \cup UNION {{[g |-> "enf", w |-> w, c |-> c + 1, x |-> x] : c \in CanonConsts(w), x \in El} : w \in Widths}
+       \cup UNION {{[g |-> "enf", w |-> w, c |-> c + 1, x |-> x] : c \in EnfConsts(w), x \in El} : w \in Widths}
   ELSE IF Mode = "contracts" THEN
        {[g |-> "u32", w |-> 0, c |-> a, x |-> b] : a \in 0 .. Half - 1, b \in 0 .. Half - 1}
        \cup {[g |-> "eq", w |-> 0, c |-> a, x |-> b] : a \in El, b \in El}
